@@ -413,7 +413,7 @@ Proof.
     destruct Hj as [Hj|Hj]; rewrite Hj in H, HJ; apply HJ; exact H.
 Qed.
 
-Lemma Rel_init : Rel ginit (mkF [] [] (mkB root_name [] [] [] [] []) (root_ctx_name, 0) 0).
+Lemma Rel_init : Rel ginit (mkF [] [] (mkB root_name [] [] [] [] []) (root_ctx_name, root_ctx_line) 0).
 Proof.
   constructor.
   - intros nm. cbn. exact I.
@@ -433,7 +433,7 @@ Proof.
   unfold gen in Hg. apply gen_gen_inv in Hg.
   destruct Hg as (g3 & g4 & p & i0 & c0 & g6 & Hb & Hpop & Hlk & Hi0 & Hc0 & Hbp & ->).
   unfold gen_body in Hb. cbn [negb cfgen_now cg_neg cg_pb cg_args] in Hb.
-  set (s_init := mkF [] [] (mkB root_name [] [] [] [] []) (root_ctx_name, 0) 0).
+  set (s_init := mkF [] [] (mkB root_name [] [] [] [] []) (root_ctx_name, root_ctx_line) 0).
   pose proof (stmt_sim root ginit g3 s_init Hfull Rel_init eq_refl eq_refl Hb) as Sim.
   assert (Hsi : g_syms ginit <> []) by (cbn; discriminate).
   destruct (dvoid_frame root ginit g3 Hsi Hb) as [_ NS].
